@@ -16,21 +16,22 @@
 (***************************************************************************)
 EXTENDS Naturals, Integers, Sequences, FiniteSets, TLC, Json, CellCfg
 
-CONSTANTS NSet, MSet, StratSet, GPosSet, CapSet, ShapeSet, AttrSet, SaltSet,
+CONSTANTS NSet, MSet, StratSet, GPosSet, G2Set, CapSet, ShapeSet, AttrSet, SaltSet,
           RebasePerPage      \* deviation flag: TRUE = matrix rows restart at every page (defect)
 
 VARIABLES cfg, d, phase, r, c, out
 vars == <<cfg, d, phase, r, c, out>>
 
-Cfg0 == [strat |-> "plain", n |-> 1, m |-> 1, gpos |-> "first", cap |-> 100, grp |-> <<>>, shape |-> "scalar",
+Cfg0 == [strat |-> "plain", n |-> 1, m |-> 1, gpos |-> "first", g2 |-> "adjacent", cap |-> 100, grp |-> <<>>, shape |-> "scalar",
          attr |-> "text_font", salt |-> 0]
-NDims == 9
+NDims == 10
 Dim(k, x) ==
   CASE k = 1 -> <<"strat", StratSet>>
     [] k = 2 -> <<"n", NSet>>
     [] k = 3 -> <<"m", MSet>>
     [] k = 4 -> <<"gpos", IF x.strat = "plain" THEN {"first"} ELSE GPosSet>>
-    [] k = 5 -> <<"cap", IF x.strat = "plain" THEN CapSet ELSE {100}>>
+    [] k = 5 -> <<"cap", IF x.strat \in {"plain", "pbspan", "pb2span"} THEN CapSet ELSE {100}>>
+    [] k = 10 -> <<"g2", IF x.strat \in {"pb2span", "subpb"} THEN G2Set ELSE {"adjacent"}>>
     [] k = 6 -> <<"grp", {}>>     \* vector dimension: TRUE where a new group starts
     [] k = 7 -> <<"shape", ShapeSet>>
     [] k = 8 -> <<"attr", AttrSet>>
